@@ -9,6 +9,7 @@ import CocoVerif.Model.ProcBank
 import CocoVerif.Model.Cli
 import CocoVerif.Model.Names
 import CocoVerif.Props.C07
+import CocoVerif.Spec.Device
 import CocoVerif.Props.C14
 import CocoVerif.Gen.EcbHelpers
 
@@ -251,6 +252,16 @@ def handle (lib : String) (line : String) : String :=
             else if k == "array" then Names.Kind.array else Names.Kind.strArray
           "ok " ++ hexStr (String.ofList (Names.xl nm.toList kind))
        | none => "bad-op")
+  | ["devforms"] =>
+      "ok " ++ hexStr ("\n".intercalate (CocoVerif.Spec.Device.forms.map (fun f =>
+        f.name ++ "\t" ++ f.template ++ "\t" ++ f.proc)))
+  | ["devexpect", name, ops] =>
+      (match unhexStr name, unhexStr ops with
+       | some n, some o =>
+          (match CocoVerif.Spec.Device.forms.find? (fun f => f.name == n) with
+           | some f => "ok " ++ hexStr (CocoVerif.Spec.Device.expected f (if o.isEmpty then [] else o.splitOn "\t"))
+           | none => "bad-op form")
+       | _, _ => "bad-op")
   | ["ping"] => "ok pong"
   | _ => "bad-op"
 
